@@ -695,7 +695,7 @@ func (r *Runner) mismatchViol(oracle string, m *Mismatch, extra string) {
 	if cross {
 		class += "/cross"
 	}
-	if extra == "" && r.Res.Counters["rounds.partial"] > 0 {
+	if extra == "" && r.E.Partials() > 0 {
 		extra = "after-partial-compaction"
 	}
 	r.viol(oracle, class, extra, m.String()+" shape="+r.E.Shape().String())
@@ -1145,12 +1145,20 @@ func (r *Runner) storePrefix() (k int, tree *model.Coll, ok bool) {
 
 func (r *Runner) notPrefixViol(oracle, what string, t *model.Coll) {
 	e := r.E
-	// Describe the difference w.r.t. the closest candidate: the current content.
-	m := DiffTree(t, e.World.Cur(), nil)
+	// Describe (and classify) the difference w.r.t. the closest candidate:
+	// the prefix state that differs from the observed content in the fewest
+	// entries (the newest one among equals).
+	best, bestN := e.World.N(), -1
+	for k := e.World.N(); k >= 0; k-- {
+		if n := DiffCount(t, e.World.Ref[k]); bestN < 0 || n < bestN {
+			best, bestN = k, n
+		}
+	}
+	m := DiffTree(t, e.World.Ref[best], nil)
 	detail := what + " content is not the reference content after any prefix of the batches"
 	class := "not-a-prefix"
 	if m != nil {
-		detail += "; vs current: " + m.String()
+		detail += fmt.Sprintf("; closest is prefix %d of %d (%d entries differ), first: %s", best, e.World.N(), bestN, m.String())
 		where := "top"
 		if len(m.Path) > 0 {
 			where = "child"
@@ -1168,7 +1176,7 @@ func (r *Runner) notPrefixViol(oracle, what string, t *model.Coll) {
 		}
 	}
 	extra := ""
-	if r.Res.Counters["rounds.partial"] > 0 {
+	if r.E.Partials() > 0 {
 		extra = "after-partial-compaction"
 	}
 	r.viol(oracle, class, extra, detail)
